@@ -144,6 +144,15 @@ pub enum Op {
         repl: String,
         n: usize,
     },
+    /// A dying caller that still uses the object: the call is made from a destructor while
+    /// the calling thread is unwinding (`std::thread::panicking()` is true for the whole
+    /// call). Simple calls only; compared like any other call.
+    PanickingCall {
+        slot: usize,
+        method: Method,
+        input: String,
+        repl: String,
+    },
     /// F11: simulated time passes (no real sleeping) before the next operation.
     ClockAdvance { ms: u64 },
     /// Legal but unusual: `Debug`-format the object (and the thread's live iterators) in
@@ -306,6 +315,8 @@ pub struct RunRecord {
     pub late_starts: u64,
     #[serde(default)]
     pub clock_jumps: u64,
+    #[serde(default)]
+    pub panicking_calls: u64,
     /// Dense build only: basic-block edges executed inside library calls, and how many of
     /// them were offered to the scheduler as preemption points.
     #[serde(default)]
